@@ -137,3 +137,56 @@ func vxH06Frame(nmax int, msize int) {
 	vxAssert(len(nn.writes) == 1, "later-connection-served")
 	vxReach("done")
 }
+
+// H06.session: after a real session prologue (Tversion, Tattach fid 0, Twalk 0->1, Topen 1) one frame of the
+// given type and length arrives whose tag and whole body are symbolic: receive loop, decoder, worker goroutine,
+// implementation, reply path and sender all run on it. No panic; the bystander is still served afterwards.
+func vxH06Session(typ int, n int, msize int) {
+	kit := vxNewKit(true, true, uint32(msize), true)
+	kit.ops.outcome = []int{vxOutOK, vxOutErr}[vxChoose("outcome", 2)]
+	nb := vxNewNetConn()
+	kit.srv.NewConn(nb)
+	vxQuiesce()
+	nc := vxNewNetConn()
+	kit.srv.NewConn(nc)
+	vxQuiesce()
+	nc.in <- refEncode(Tversion, NOTAG, []refItem{refU32(uint32(msize)), refS("9P2000.u")}, true)
+	vxQuiesce()
+	nc.in <- refEncode(Tattach, 1, []refItem{refU32(0), refU32(NOFID), refS(""), refS(""), refU32(0)}, true)
+	vxQuiesce()
+	nc.in <- refEncode(Twalk, 1, []refItem{refU32(0), refU32(1), {kind: rkNstr, ss: nil}}, true)
+	vxQuiesce()
+	nc.in <- refEncode(Topen, 1, []refItem{refU32(1), refU8(ORDWR)}, true)
+	vxQuiesce()
+	vxAssert(len(nc.writes) == 4, "prologue-answered")
+	frame := vxBytes("frame", n)
+	frame[0], frame[1], frame[2], frame[3] = byte(n), byte(n>>8), 0, 0
+	frame[4] = byte(typ)
+	vxObserve("@type", typ)
+	nc.in <- frame
+	vxQuiesce()
+	// a follow-up request on the same connection is answered or the connection was dropped as a whole
+	alive := false
+	for c := range kit.srv.conns {
+		if c.conn == nc {
+			alive = true
+		}
+	}
+	if alive {
+		before := len(nc.writes)
+		kit.ops.outcome = vxOutOK
+		nc.in <- refEncode(Tstat, 0x7f7f, []refItem{refU32(0)}, true)
+		vxQuiesce()
+		// the symbolic request may itself have used tag 0x7f7f and still be outstanding (no answer): then the
+		// follow-up is queued behind it; otherwise it must be answered
+		vxAssert(len(nc.writes) >= before, "connection-state-consistent")
+		vxReach("alive")
+	} else {
+		vxReach("dropped")
+	}
+	ver := refEncode(Tversion, NOTAG, []refItem{refU32(uint32(msize)), refS("9P2000")}, false)
+	nb.in <- ver
+	vxQuiesce()
+	vxAssert(len(nb.writes) == 1, "bystander-served")
+	vxReach("done")
+}
